@@ -10,6 +10,23 @@ NOTE = ("Trusted: rustc nightly's type-checked MIR (mir-opt-level=0, overflow ch
         "wrapper summaries; imprecise origins make a rule silent, never alarming.")
 
 CHECKS = {
+    "C13": dict(
+        text="Partial ('nothing invalid is emitted'): every packet emission in the deframer is dominated by the length, minimum-size and "
+             "(checksum on) CRC-equality guards; over-long accumulations are abandoned; after a recognised closing flag the state is "
+             "Synced (a rejected frame does not disturb the next); frame-length arithmetic is guarded. 'Every valid frame is recovered' is "
+             "a round-trip value property and is not decided.",
+        design="§4 C13", technique="guard-fact dominance on MIR + content-taint/guard analysis"),
+    "C14": dict(
+        text="Partial: writer/reader table agreement (each Sample impl and the AU pair use the same primitive type, width and byte "
+             "order), each AuDecode phase consumes what it parsed, partial-read arithmetic of the byte sources is guarded, and a fast "
+             "path emitting freshly read bytes is dominated by carry-buffer emptiness. Identity of composed byte streams is not decided.",
+        design="§4 C14", technique="sibling agreement of codec call tables + must-pass path rules + taint/guard analysis on MIR"),
+    "C15": dict(
+        text="Partial, audited: explicit-flow content taint (plus limited implicit flow into accumulators) over everything reachable "
+             "from Block::work and the parsers; every content-tainted panic edge (checked subtraction/narrow arithmetic, division, "
+             "explicit assert/panic, unwrap/expect, indexing/slice ops) must be discharged by a dominating guard or be listed with a "
+             "reason in an exact audit table. Non-termination, dependency panics and 64-bit counter overflow are not decided.",
+        design="§4 C15", technique="interprocedural content-taint analysis + guard discharge on MIR, exact audit table"),
     "C03": dict(
         text="Structural: the protocol that justifies `unsafe impl Sync for Circ` has the required shape - raw memory and window "
              "constructors reachable only through the window API (call graph + signature rule), window bounds are one snapshot "
